@@ -3,7 +3,7 @@
 From Coq Require Import List NArith Bool Arith Lia Sorted.
 Import ListNotations.
 From JV Require Import Model.LexBase Model.LexTokeniter Spec.LexTrimSpec Proofs.LexInv Proofs.LexTrim Proofs.LexCfg
-  Proofs.LexSkelA Proofs.LexSkelB Proofs.LexSkelC Proofs.LexSkelD.
+  Proofs.LexSkelA Proofs.LexSkelB Proofs.LexSkelC Proofs.LexSkelD Proofs.LexLineA.
 Open Scope N_scope.
 
 (* compile_rules sorts by decreasing start-string length, for every configuration ... *)
@@ -23,26 +23,31 @@ Print Assumptions C13_longest_start_wins.
 
 (* Delimiter invariance, EVERY skeleton: two configurations whose delimiters satisfy the bundle
    of local facts [skel_cfg] (a consistent delimiter substitution: unparse writes the same
-   skeleton with each configuration's own strings) and that agree on trim_blocks / lstrip_blocks
-   give the same data for every well-formed skeleton whose texts are delimiter-free for both. *)
+   skeleton with each configuration's own strings) and that agree on trim_blocks, lstrip_blocks,
+   keep_trailing_newline and newline_sequence give the same data for every well-formed skeleton
+   whose texts are delimiter-free for both. *)
 Theorem C13_delimiter_invariance : forall c c' txt txt' sk,
   skel_cfg c txt -> skel_cfg c' txt' -> c_trim c = c_trim c' -> c_lstrip c = c_lstrip c' ->
+  c_keep c = c_keep c' -> c_nlseq c = c_nlseq c' ->
   skel_wf txt sk = true -> skel_wf txt' sk = true ->
   render_data c (unparse c sk) = render_data c' (unparse c' sk).
-Proof. intros c c' txt txt' sk H H' Et El Hw Hw'. exact (delimiter_invariance c c' txt txt' sk H H' Et El Hw Hw'). Qed.
+Proof. intros c c' txt txt' sk H H' Et El Ek En Hw Hw'. exact (delimiter_invariance c c' txt txt' sk H H' Et El Ek En Hw Hw'). Qed.
 Print Assumptions C13_delimiter_invariance.
 
 (* ... in particular between the default delimiters, <% %> <%= %> <%# #%> (block start a prefix of
-   the two other start strings: this is where longest_start_wins is needed) and $% %$ ${ } $# #$,
-   for all skeletons with texts free of '{', '<', '$' and CR, under all four settings *)
-Theorem C13_delimiter_invariance_families : forall t l sk,
+   the two other start strings: this is where longest_start_wins is needed), <% %> <%= %> <!-- -->
+   (comment end starting with '-') and $% %$ ${ } $# #$, for all skeletons with texts free of '{',
+   '<', '$' and CR, all settings *)
+Theorem C13_delimiter_invariance_families : forall t l k seq sk,
   skel_wf (fun x => txt_of 123 x && txt_of 60 x && txt_of 36 x) sk = true ->
-  render_data (cfg_asp t l false [10]) (unparse (cfg_asp t l false [10]) sk)
-    = render_data (cfg_default t l false [10]) (unparse (cfg_default t l false [10]) sk) /\
-  render_data (cfg_dollar t l false [10]) (unparse (cfg_dollar t l false [10]) sk)
-    = render_data (cfg_default t l false [10]) (unparse (cfg_default t l false [10]) sk).
+  render_data (cfg_asp t l k seq) (unparse (cfg_asp t l k seq) sk)
+    = render_data (cfg_default t l k seq) (unparse (cfg_default t l k seq) sk) /\
+  render_data (cfg_angle t l k seq) (unparse (cfg_angle t l k seq) sk)
+    = render_data (cfg_default t l k seq) (unparse (cfg_default t l k seq) sk) /\
+  render_data (cfg_dollar t l k seq) (unparse (cfg_dollar t l k seq) sk)
+    = render_data (cfg_default t l k seq) (unparse (cfg_default t l k seq) sk).
 Proof.
-  intros t l sk H.
+  intros t l k seq sk H.
   assert (W : forall h, (forall x, txt_of 123 x && txt_of 60 x && txt_of 36 x = true -> txt_of h x = true) ->
               skel_wf (txt_of h) sk = true) by (intros h Hh; exact (skel_wf_weaken _ _ sk Hh H)).
   assert (W1 : skel_wf (txt_of 123) sk = true)
@@ -51,14 +56,14 @@ Proof.
     by (apply W; intros x Hx; apply andb_true_iff in Hx as [Hx _]; apply andb_true_iff in Hx as [_ Hx]; exact Hx).
   assert (W3 : skel_wf (txt_of 36) sk = true)
     by (apply W; intros x Hx; apply andb_true_iff in Hx as [_ Hx]; exact Hx).
-  split.
-  - exact (delimiter_invariance _ _ _ _ sk (skel_cfg_asp t l) (skel_cfg_default t l) eq_refl eq_refl W2 W1).
-  - exact (delimiter_invariance _ _ _ _ sk (skel_cfg_dollar t l) (skel_cfg_default t l) eq_refl eq_refl W3 W1).
+  repeat split.
+  - exact (delimiter_invariance _ _ _ _ sk (skel_cfg_asp t l k seq) (skel_cfg_default t l k seq) eq_refl eq_refl eq_refl eq_refl W2 W1).
+  - exact (delimiter_invariance _ _ _ _ sk (skel_cfg_angle t l k seq) (skel_cfg_default t l k seq) eq_refl eq_refl eq_refl eq_refl W2 W1).
+  - exact (delimiter_invariance _ _ _ _ sk (skel_cfg_dollar t l k seq) (skel_cfg_default t l k seq) eq_refl eq_refl eq_refl eq_refl W3 W1).
 Qed.
 Print Assumptions C13_delimiter_invariance_families.
 
-(* Regression instance kept from the first round (includes <!-- -->, whose end string starts with '-'
-   and is therefore outside the bundle): *)
+(* Regression instance kept from the first round: *)
 (* Delimiter invariance, small scope (Coq-checked enumeration, NOT the unbounded statement):
    every skeleton  text tag text  of the stated domain written with the default delimiters,
    with <% %> / <%= %> / <!-- --> (a start string that is a prefix of another) and with
@@ -84,6 +89,38 @@ Proof.
 Qed.
 Print Assumptions C13_delimiter_invariance_small_scope.
 
+(* Line statements, EVERY line-structured skeleton: a template made of chunks  text ++ indentation ++
+   whole-line tag ++ LF  (any number of them) and a final text, with line_statement_prefix '#',
+   line_comment_prefix '##', trim_blocks and lstrip_blocks, renders the same when every whole-line
+   "{% set x = 1 %}" is rewritten as the line statement "# set x = 1".  [lsk_ok]: texts are any
+   strings without '{', '#', CR that are empty or end a line, indentation is spaces / tabs / VT, and
+   what follows a statement line does not begin with a blank line (its first non-indentation
+   character is not whitespace).  Both forms render the texts with the statement lines removed.
+   Every newline_sequence; keep_trailing_newline set, or a non-empty final text. *)
+Theorem C13_line_statement_equiv : forall keep nlseq chs F,
+  lsk_ok chs F = true -> (keep = true \/ F <> []) ->
+  render_data (cfg_line true true keep nlseq) (unparse_form tag_line_form chs F)
+  = render_data (cfg_line true true keep nlseq) (unparse_form tag_block_form chs F).
+Proof. intros k seq chs F H Hk. exact (line_statement_equiv k seq chs F H Hk). Qed.
+Print Assumptions C13_line_statement_equiv.
+
+Theorem C13_line_form_render : forall tag keep nlseq chs F,
+  (tag = tag_block_form \/ tag = tag_line_form) -> lsk_ok chs F = true -> (keep = true \/ F <> []) ->
+  render_data (cfg_line true true keep nlseq) (unparse_form tag chs F)
+  = Some (nl_subst nlseq (spec_lines chs (if keep then F else drop_last_nl F))).
+Proof. intros tag k seq chs F Ht H Hk. exact (line_form_render tag k seq chs F Ht H Hk). Qed.
+Print Assumptions C13_line_form_render.
+
+(* The guard is needed: a statement line followed by a blank line loses that line in the
+   line-statement form only (\s*(\n|$) consumes through the last line break of the whitespace run). *)
+Theorem C13_line_statement_blank_line_refuted :
+  exists src_line src_block,
+    src_line = [35] ++ body_block ++ [10; 10; 97] /\ src_block = tag_block_form ++ [10; 10; 97] /\
+    render_data (cfg_line true true false [10]) src_line <> render_data (cfg_line true true false [10]) src_block.
+Proof. eexists. eexists. split; [reflexivity|]. split; [reflexivity|]. vm_compute. discriminate. Qed.
+Print Assumptions C13_line_statement_blank_line_refuted.
+
+(* Regression instance kept from the first round: *)
 (* Line statements, small scope: a whole-line {% set x = 1 %} and its line-statement form
    # set x = 1  (prefix '#', trim_blocks + lstrip_blocks) give the same data for every
    indentation / preceding text / following text of the stated domain whose following text
